@@ -290,6 +290,29 @@ func registerIntrinsics(e *Engine) {
 		}
 		return nil
 	}
+	// NondetSpawnOrder: scheduling choices only where a goroutine is started (cheap: long
+	// pipelines full of channel operations stay one path, but "which of the started goroutines
+	// runs first" is explored)
+	r[vfPkg+".NondetSpawnOrder"] = func(e *Engine, fr *frame, args []Value, site ssa.CallInstruction) Value {
+		e.hostState["spawnSched"] = args[0].(bool)
+		if s, _ := e.hostState["sched"].(*schedState); s != nil {
+			s.spawnOnly = args[0].(bool)
+		}
+		return nil
+	}
+	// CPUs: what runtime.GOMAXPROCS(0) / runtime.NumCPU() report
+	r[vfPkg+".CPUs"] = func(e *Engine, fr *frame, args []Value, site ssa.CallInstruction) Value {
+		e.hostState["cpus"] = asInt(args[0])
+		return nil
+	}
+	cpus := func(e *Engine) int64 {
+		if n, ok := e.hostState["cpus"].(int); ok && n > 0 {
+			return int64(n)
+		}
+		return 1
+	}
+	r["runtime.NumCPU"] = func(e *Engine, fr *frame, args []Value, site ssa.CallInstruction) Value { return cpus(e) }
+	r["runtime.GOMAXPROCS"] = func(e *Engine, fr *frame, args []Value, site ssa.CallInstruction) Value { return cpus(e) }
 	r[vfPkg+".PreemptionBound"] = func(e *Engine, fr *frame, args []Value, site ssa.CallInstruction) Value {
 		e.hostState["preemptBudget"] = asInt(args[0])
 		if s, _ := e.hostState["sched"].(*schedState); s != nil {
@@ -564,7 +587,10 @@ func registerIntrinsics(e *Engine) {
 		return e.ite(eq, it, int64(0), e.ite(lt, it, int64(-1), int64(1)))
 	}
 	r["strings.TrimSpace"] = func(e *Engine, fr *frame, args []Value, site ssa.CallInstruction) Value {
-		return strings.TrimSpace(mustStr(e, args[0], "TrimSpace"))
+		if a, ok := argStr(args[0]); ok {
+			return strings.TrimSpace(a)
+		}
+		return e.callModel("StringsTrimSpace", args[0])
 	}
 	r["strings.Replace"] = func(e *Engine, fr *frame, args []Value, site ssa.CallInstruction) Value {
 		return strings.Replace(mustStr(e, args[0], "Replace"), mustStr(e, args[1], "Replace"), mustStr(e, args[2], "Replace"), asInt(args[3]))
@@ -705,6 +731,39 @@ func registerIntrinsics(e *Engine) {
 	for _, n := range []string{"(*sync.Mutex).Lock", "(*sync.Mutex).Unlock", "(*sync.RWMutex).Lock", "(*sync.RWMutex).Unlock",
 		"(*sync.RWMutex).RLock", "(*sync.RWMutex).RUnlock"} {
 		r[n] = noop
+	}
+	// sync.WaitGroup: a counter per WaitGroup; Wait yields to the other goroutines until it is 0
+	wgKey := func(v Value) string { return fmt.Sprintf("wg:%p", v.(*Value)) }
+	r["(*sync.WaitGroup).Add"] = func(e *Engine, fr *frame, args []Value, site ssa.CallInstruction) Value {
+		k := wgKey(args[0])
+		n, _ := e.hostState[k].(int)
+		n += asInt(args[1])
+		if n < 0 {
+			e.goPanic("sync: negative WaitGroup counter")
+		}
+		e.hostState[k] = n
+		return nil
+	}
+	r["(*sync.WaitGroup).Done"] = func(e *Engine, fr *frame, args []Value, site ssa.CallInstruction) Value {
+		k := wgKey(args[0])
+		n, _ := e.hostState[k].(int)
+		if n <= 0 {
+			e.goPanic("sync: negative WaitGroup counter")
+		}
+		e.hostState[k] = n - 1
+		return nil
+	}
+	r["(*sync.WaitGroup).Wait"] = func(e *Engine, fr *frame, args []Value, site ssa.CallInstruction) Value {
+		k := wgKey(args[0])
+		for {
+			n, _ := e.hostState[k].(int)
+			if n <= 0 {
+				return nil
+			}
+			if !e.yield() {
+				e.abort(abortEngine, "deadlock: WaitGroup.Wait with no runnable goroutine")
+			}
+		}
 	}
 	r["(*sync.Once).Do"] = func(e *Engine, fr *frame, args []Value, site ssa.CallInstruction) Value {
 		p := args[0].(*Value)
